@@ -49,8 +49,8 @@ def snap(r):
     det = None if r.detail_result is None else [int(x) for x in r.detail_result["row"].tolist()] if "row" in r.detail_result else []
     g = r.co2_emission_total_kg
     return {
-        "duration": None if r.duration_s is None else float(r.duration_s),
-        "load": None if r.load_ratio_genset is None else float(r.load_ratio_genset),
+        "duration": None if r.duration_s is None else float(np.atleast_1d(r.duration_s)[0]),
+        "load": None if r.load_ratio_genset is None else float(np.atleast_1d(r.load_ratio_genset)[0]),
         "scalars": [float(getattr(r, n)) for n in scalar_fields()],
         "species": sp,
         "fuel": [[f.fuel_type.value * 100 + f.origin.value * 10 + f.fuel_specified_by.value, float(f.mass_or_mass_fraction)]
